@@ -295,12 +295,20 @@ def validate_scalar(value: Any, dtype: DataType) -> Any:
         return value
 
     # Numeric coercions
+    # (an int too large for a float stays the int it is: inference admits it next to
+    # floats - Vector([1.5, 10**400]) is <float> - so writing it must be accepted too)
     if dtype.kind is float and vtype in (int, bool):
-        return float(value)
+        try:
+            return float(value)
+        except OverflowError:
+            return value
     if dtype.kind is int and vtype is bool:
         return int(value)
     if dtype.kind is complex and vtype in (int, float, bool):
-        return complex(value)
+        try:
+            return complex(value)
+        except OverflowError:
+            return value
 
     # Temporal promotion
     if dtype.kind is datetime and vtype is date:
